@@ -34,6 +34,8 @@ def _item(txt):
 def _enc(kind, v):
     if kind == "num":
         return "%02x" % v
+    if kind == "num16":
+        return "%02x%02x" % (v & 0xff, v >> 8)
     if kind == "pin":
         return "%02d%02d" % (v // 100, v % 100)
     return "".join("%02x" % ord(c) for c in v)
@@ -225,6 +227,31 @@ def worlds(thorough):
     for v in (1, 2, 3):
         w.val(r, [v])
     ws.append(w)
+    if thorough:
+        ws.append(_simple("biglist", "1;3;5-6;>=9", list(range(0, 11))))
+        ws.append(_simple("str3", "'ab';'cd';'ef'", ["ab", "cd", "ef", "a ", "fe", "  "], fields=[("", "str", "STR:2")]))
+        ws.append(_simple("uin", "255-256;>1000", [254, 255, 256, 257, 1000, 1001], fields=[("", "num16", "UIN")]))
+        w = W("comb3")
+        r1, r2 = w.ref("n1", NUM1), w.ref("n2", NUM1)
+        w.cond("c1", r1, ">=2"); w.cond("c2", r2, "1;3"); w.cond("c3", r1, "<=3")
+        w.dep(["c1", "c2", "c3"]); w.dep(["c3", "c2"])
+        for v in (1, 2, 3, 4):
+            w.val(r1, [v])
+        for v in (1, 2):
+            w.val(r2, [v])
+        ws.append(w)
+        w = W("find3")
+        r = w.ref("x", NUM1)
+        w.cond("c", r, "")
+        for k in (1, 2, 3):
+            w.derived("c=%d" % k, "c", "=%d" % k)
+            w.dep(["c=%d" % k], name="x", idhex="0d2000")
+        w.derived("c>=2", "c", ">=2")
+        w.dep(["c>=2"], name="x", idhex="0d2000")
+        for v in (1, 2, 3, 4):
+            w.val(r, [v])
+        w.find("x"); w.findm("0d2000")
+        ws.append(w)
     return ws
 
 
